@@ -201,6 +201,7 @@ type q struct {
 	limit   int
 	offset  int
 	ordered bool
+	desc    bool
 }
 
 // ---- criteria evaluation (the fragment DAWGS's own callers emit) ----
@@ -475,7 +476,27 @@ func (s *nodeQ) Filter(c graph.Criteria) graph.NodeQuery {
 	return s
 }
 func (s *nodeQ) Filterf(f graph.CriteriaProvider) graph.NodeQuery { return s.Filter(f()) }
-func (s *nodeQ) OrderBy(...graph.Criteria) graph.NodeQuery        { s.ordered = true; return s }
+func (s *nodeQ) OrderBy(cs ...graph.Criteria) graph.NodeQuery {
+	s.ordered = true
+	for _, c := range cs {
+		if si, ok := c.(*cypher.SortItem); ok && !si.Ascending {
+			s.desc = true
+		}
+	}
+	return s
+}
+
+// First returns the first node of the (filtered, ordered) result or graph.ErrNoResultsFound.
+func (s *nodeQ) First() (*graph.Node, error) {
+	if err := s.db.hook(s.ctx, "Nodes.First"); err != nil {
+		return nil, err
+	}
+	rows := s.rows()
+	if len(rows) == 0 {
+		return nil, graph.ErrNoResultsFound
+	}
+	return ToGraphNode(rows[0]), nil
+}
 func (s *nodeQ) Limit(n int) graph.NodeQuery                      { s.limit = n; return s }
 func (s *nodeQ) Offset(n int) graph.NodeQuery                     { s.offset = n; return s }
 
@@ -492,6 +513,14 @@ func (s *nodeQ) rows() []*Node {
 		if ok {
 			out = append(out, n)
 		}
+	}
+	if s.desc {
+		// nodes are kept in ascending id order
+		rev := make([]*Node, len(out))
+		for i, n := range out {
+			rev[len(out)-1-i] = n
+		}
+		out = rev
 	}
 	return window(out, s.offset, s.limit)
 }
